@@ -104,7 +104,11 @@ def c08_free(n, which):
 def c19_categorize(n):
     """direct mode: the real categorize on n free characters"""
     s = SX.fresh(n)
-    toks = list(_cat.categorize(s))
+    try:
+        toks = list(_cat.categorize(s))
+    except Exception as e:
+        SX.check(False, 'C19:one-token-per-char', lambda: {'input': s, 'error': repr(e)[:200]})
+        return ('raises', type(e).__name__)
     SX.check(len(toks) == n, 'C19:one-token-per-char')
     for i, t in enumerate(toks):
         SX.check(SX.raw(t.text) == s[i] and len(SX.raw(t.text)) == 1 and SX.same_char(SX.raw(t.text), s[i]),
